@@ -45,8 +45,9 @@ Edge(u, v) == G.edge[u][v]
 IsCaseEdge(u, v) == Edge(u, v).cs # "-"
 (* the reduced view of _get_reduced_dag: case_branch edges dropped; a one-of child is visible only in the subgraph
    built to run it, i.e. as the destination of a dag (it belongs to no other scope) - unless it is also an ordinary
-   dependency of some node (a successor that is not a one-of head): then it is an ordinary node everywhere *)
-VisNode(n, oneof, dest) == ~A(n).is_child \/ n = dest \/ \E v \in Succs(n) : ~A(v).is_head
+   dependency of some node (a successor that is not a one-of head, over an edge that is not a case edge): then it is an
+   ordinary node everywhere *)
+VisNode(n, oneof, dest) == ~A(n).is_child \/ n = dest \/ \E v \in Succs(n) : ~A(v).is_head /\ ~IsCaseEdge(n, v)
 VEdge(u, v, filtered, oneof, dest) ==
     HasEdge(u, v) /\ (~filtered \/ (~IsCaseEdge(u, v) /\ VisNode(u, oneof, dest) /\ VisNode(v, oneof, dest)))
 
@@ -293,10 +294,10 @@ NodeStore(S, t) ==
               THEN SetTop(Spawn(S, "rec-" \o n, [fn |-> "rec", pc |-> "q0", n |-> n, dag |-> f.dag, iter |-> 0, data |-> r[3], sub |-> 0]),
                           t, [f EXCEPT !.unlock = FALSE])
               ELSE S
-        S2 == IF ~f.dup THEN [S1 EXCEPT !.res[n] = r, !.hid = @ \ {n}] ELSE S1
     IN  IF ~f.dup /\ r[1] \notin {"rec", "err"}
-        THEN CollabThen([S2 EXCEPT !.saves = Append(@, n)], t, "save", "saved")      \* await ctx.save_node_result
-        ELSE NodeFin(SetPc(S2, t, "fin"), t)
+        THEN (* await ctx.save_node_result FIRST: the result becomes visible only once the artifact is saved *)
+             CollabThen([S1 EXCEPT !.saves = Append(@, n)], t, "save", "saved")
+        ELSE NodeFin(SetPc(IF ~f.dup THEN [S1 EXCEPT !.res[n] = r, !.hid = @ \ {n}] ELSE S1, t, "fin"), t)
 
 (* an Exception left __execute_node: emit node_complete(ex); inside one-of dags the exception is the value *)
 NodeFail(S, t, tok) ==
@@ -473,7 +474,7 @@ Exec(S, t) ==
                    IN  IF A(f.n).delay = 0 THEN Yield(S1, t) ELSE BlockTimer(S1, t, S1.now + A(f.n).delay)
               [] f.pc = "efail" ->
                    IF S.dags[f.dag].oneof THEN NodeStore(S, t) ELSE Raise(S, t, <<"err", f.result[3]>>)
-              [] f.pc = "saved" -> NodeFin(SetPc(S, t, "fin"), t)
+              [] f.pc = "saved" -> NodeFin(SetPc([S EXCEPT !.res[f.n] = f.result, !.hid = @ \ {f.n}], t, "fin"), t)
               [] f.pc = "ndup" ->
                    (* get_node_result(node_id): without hidden -> None for a hidden / absent result *)
                    NodeStore(SetTop(S, t, [f EXCEPT !.result = IF HasRes(S, f.n) THEN S.res[f.n] ELSE <<"none", NoTag, "-">>]), t)
